@@ -352,7 +352,7 @@ class Model:
             elif k == "fail":
                 rc = st[1]
                 break
-            elif k in ("work", "err"):
+            elif k in ("work", "err", "sleep"):
                 pass
             elif k == "out":
                 out_mode = st[1]
